@@ -111,6 +111,17 @@ def c10_scripts(rng, tier, model_prefixes):
             for o in suf:
                 ops += [with_id(o, 0), with_id(o, 1)]
             S.append(ops)
+    # caller-supplied interpolators of odd length (new_with_interpolator): constructor vs reset (seeded change C10o)
+    for _ in range(n_gen // 4):
+        for kind in ("SincFixedIn", "SincFixedOut"):
+            pre = gen.valid_history(rng, kind, rng.randrange(2, 8), allow=("ratio", "ramp", "chunk"),
+                                    L=rng.choice([9, 15, 33, 7, 21]), Lraw=True, probe="linear", signal="index", ch=1)
+            n = calm(pre[0])
+            suf = [{"op": "process"} for _ in range(rng.randrange(2, 5))]
+            ops = list(pre) + [{"op": "note", "twin": "full", "a": 0, "b": 1}, {"op": "reset", "id": 0}, with_id(n, 1)]
+            for o in suf:
+                ops += [with_id(o, 0), with_id(o, 1)]
+            S.append(ops)
     # boundary configurations of the size computations (chunk x ratio an integer next to a power of two; huge
     # and block-aligned sizes): what the constructor computes vs what reset() restores (seeded change C10h)
     for _ in range(n_gen // 2):
